@@ -228,6 +228,12 @@ func FamilyAPI(tier string) []*Scenario {
 	for _, name := range []string{"start|start", "start,wait|start", "start,start|wait", "start,wait|plan,start"} {
 		out = append(out, &Scenario{Family: "F-api", Name: "api-conc-slowread-" + name, Plans: []PlanSpec{short}, Threads: conc[name], SlowReads: true, MaxSubmitSec: 10, MaxTicks: 10, PostWaitTicks: 1})
 	}
+	// a consumer that leaves the Status loop early while the plan is still Running (time passes by default while the
+	// sequence action executes, so the poll falls inside the execution)
+	for _, n := range []int{1, 2} {
+		out = append(out, &Scenario{Family: "F-api", Name: fmt.Sprintf("api-status-break-while-running-%d", n), Plans: []PlanSpec{{Blocks: []BlockSpec{{Seqs: []SeqSpec{Seq(A())}}}}}, MaxSubmitSec: 100, Time: true, SlowPlugins: true, MaxTicks: 2 + n, PostWaitTicks: 2,
+			Threads: [][]APICall{{{Op: "start", Plan: 0}, {Op: "status", Plan: 0, Arg: n}, {Op: "plan", Plan: 0}, {Op: "wait", Plan: 0}}}})
+	}
 	// submission by the driver itself, valid and invalid
 	out = append(out, &Scenario{Family: "F-api", Name: "api-submit", Plans: []PlanSpec{plan}, NoPresubmit: true, MaxTicks: 6,
 		Threads: [][]APICall{{{Op: "submitbad", Plan: 0}, {Op: "start", Plan: 0}, {Op: "submit", Plan: 0}, {Op: "start", Plan: 0}, {Op: "wait", Plan: 0}, {Op: "start", Plan: 0}}}})
